@@ -16,6 +16,10 @@ pub struct EvLogInner {
     pub current: Vec<String>,
 }
 
+/// inner polls of one outer poll after which the trace is muted (a spinning router would otherwise
+/// write the spin budget's worth of events); bursts of several hundred ready items stay below it
+pub const MUTE_AT: u64 = 10_000;
+
 #[derive(Clone)]
 pub struct EvLog(pub Arc<Mutex<EvLogInner>>);
 
@@ -77,9 +81,9 @@ impl EvLog {
     pub fn count_inner(&self) -> u64 {
         let mut g = self.lock();
         g.inner += 1;
-        if g.inner == 300 {
+        if g.inner == MUTE_AT {
             drop(g);
-            self.emit("muted", json!({"after_inner": 300}));
+            self.emit("muted", json!({"after_inner": MUTE_AT}));
             g = self.lock();
             g.muted = true;
         }
